@@ -64,7 +64,7 @@ ATOL = 1e-11
 KTOL = gen.TOL
 QUANT = 2.0 ** 20
 RULE = ('models: structured grids up to 2x2x2 / 3x2, L/T/U/O unions, corner-contact pairs, rings of 1-2 patches, tori, '
-        'two cubes in face/edge/corner contact; surfaces (in 2D and 3D) and volumes; orders 2-3 with 2-5 control points per '
+        'two cubes in face/edge/corner contact, two volumes sharing a face with the neighbour in all 48 parametrisations x both insertion orders; surfaces (in 2D and 3D) and volumes; orders 2-3 with 2-5 control points per '
         'direction (refinement levels 0-3 of the same complex: finer lattice per patch), rational nets with shared '
         'weights; every patch in a random one of its 8/48 orientations (even ones for the trilinear face models), random '
         'insertion order (about half of them face-linked histories); trilinear right-handed volume models additionally '
@@ -73,7 +73,7 @@ RULE = ('models: structured grids up to 2x2x2 / 3x2, L/T/U/O unions, corner-cont
 REQUIRED_TAGS = ['pardim=2', 'pardim=3', 'faces', 'ofoam', 'ifem:nonempty', 'level=0', 'level=1', 'level=2',
                  'history:linked', 'history:unlinked', 'witness:edge-contact', 'witness:corner-contact',
                  'witness:L-corner-last', 'family:self-connected', 'rational', 'reoriented', 'orient:nonzero',
-                 'interface-faces', 'names>1']
+                 'interface-faces', 'names>1', 'two-volumes-48']
 
 ALL = ['num', 'cps', 'faces', 'ofoam', 'ifem', 'plans']
 
@@ -337,8 +337,32 @@ def gen_faces(rng, tier):
     return specs
 
 
+def gen_two_volumes(rng, tier):
+    """Two volumes sharing one face; the neighbour in every one of its 48 parametrisations, added before
+    or after the first (both orders): every relative orientation of an interface, systematically."""
+    specs = []
+    for rep in range(1 if tier == 'quick' else 4):
+        base = lattice_complex(rng, 3, 3, cx.grid_cells(rng.choice([(2, 1, 1), (1, 2, 1), (1, 1, 2)])), [2, 2, 2] if rep == 0 else [rng.choice([2, 3]) for _ in range(3)],
+                               [2, 2, 2] if rep % 2 == 0 else [rng.choice([2, 3]) for _ in range(3)], rational=False, jitter=True, family='two-volumes-48')
+        if rep % 2 == 1:
+            # orders may exceed the number of points chosen above: rebuild consistently
+            npts = [rng.choice([3, 5]) for _ in range(3)]
+            base = lattice_complex(rng, 3, 3, cx.grid_cells((2, 1, 1)), npts, [rng.choice([2, 3]) for _ in range(3)], jitter=True, family='two-volumes-48')
+        a, b = base['patches']
+        for perm, flip in cx.all_orientations(3):
+            nb = cx.reorient(b, perm, flip)
+            for order in ((0, 1), (1, 0)):
+                c = dict(base)
+                c['patches'] = [[a, nb][i] for i in order]
+                c['orients'] = [[[[0, 1, 2], [0, 0, 0]], [list(perm), [int(f) for f in flip]]][i] for i in order]
+                c['order'] = list(order)
+                c['flags'] = ['two-volumes-48']
+                specs.append(finish(c, ['num', 'cps', 'ifem', 'plans'], level=0 if rep == 0 else 1))
+    return specs
+
+
 def generate(rng, tier):
-    return witnesses() + gen_numbering(rng, tier) + gen_faces(rng, tier)
+    return witnesses() + gen_two_volumes(rng, tier) + gen_numbering(rng, tier) + gen_faces(rng, tier)
 
 
 # ---------------------------------------------------------------------------------------------
@@ -924,10 +948,16 @@ def oracle(sp, s):
 
 
 def classify(s, res=None):
+    """A known-finding label only when EVERY oracle message of the case is one the known defect explains
+    (connections and cell numbers never depend on the control-point numbering)."""
     if res is None:
         return None
     msgs = res.get('oracle') or []
     if not msgs:
+        return None
+    independent = [m for m in msgs if m.startswith(('connection', 'interface master', 'IFEMWriter', 'cell numbers', 'cell arrays',
+                                                    'conforming model rejected', 'generate_cp_numbers raised'))]
+    if independent:
         return None
     hist = set(s.get('history', []))
     num_msgs = [m for m in msgs if 'several global numbers' in m]
